@@ -66,6 +66,36 @@ def repo_source_hash() -> str:
     return h.hexdigest()[:20]
 
 
+def forget_stale_workspace_artefacts(tdir: str):
+    """cargo decides freshness by comparing source mtimes with the time of the last build, so a file that went BACK to
+    older content with an older mtime (a restored copy, `cp -p`, rsync -a, an extracted archive) is taken as unchanged
+    and the artefact built from the other content (e.g. the stellar-macros proc-macro) is reused. We key on content:
+    when the tree hash differs from the one this target directory was last used with, the fingerprints of all
+    workspace crates are removed, which makes cargo rebuild exactly those from the current sources."""
+    import fcntl, glob, shutil
+    os.makedirs(tdir, exist_ok=True)
+    cur = repo_source_hash()
+    with open(os.path.join(tdir, ".verif-stamp.lock"), "w") as lk:
+        fcntl.flock(lk, fcntl.LOCK_EX)
+        sp = os.path.join(tdir, ".verif-tree-hash")
+        prev = open(sp).read().strip() if os.path.exists(sp) else ""
+        if prev != cur:
+            names = set()
+            for top in ("packages", "examples"):
+                for root, dirs, files in os.walk(os.path.join(REPO, top)):
+                    dirs[:] = [d for d in dirs if d not in ("target", "test_snapshots", ".git")]
+                    if "Cargo.toml" in files:
+                        m = re.search(r'^name\s*=\s*"([^"]+)"', open(os.path.join(root, "Cargo.toml")).read(), re.M)
+                        if m:
+                            names.add(m.group(1))
+            for fp in glob.glob(os.path.join(tdir, "*", ".fingerprint", "*")):
+                base = os.path.basename(fp).rsplit("-", 1)[0]
+                if base in names or base.replace("_", "-") in names:
+                    shutil.rmtree(fp, ignore_errors=True)
+            with open(sp, "w") as f:
+                f.write(cur)
+
+
 def expand_example(pkg: str) -> str:
     """path of rustc's own macro expansion of example crate `pkg`, built from REPO's current working tree"""
     os.makedirs(EXPAND_CACHE, exist_ok=True)
@@ -78,6 +108,7 @@ def expand_example(pkg: str) -> str:
     tdir = os.path.join(EXPAND_TARGET, hashlib.sha256(os.path.abspath(REPO).encode()).hexdigest()[:12])
     env.update({"RUSTUP_TOOLCHAIN": "stable-x86_64-unknown-linux-gnu", "RUSTC_BOOTSTRAP": "1", "CARGO_NET_OFFLINE": "true",
                 "CARGO_TARGET_DIR": tdir})
+    forget_stale_workspace_artefacts(tdir)
     p = subprocess.run(["cargo", "rustc", "--offline", "-p", pkg, "--lib", "--profile", "check", "--", "-Zunpretty=expanded"],
                        cwd=REPO, env=env, capture_output=True, text=True)
     if p.returncode != 0 or "fn " not in p.stdout:
@@ -353,7 +384,38 @@ def find_matching(s: str, i: int, open_c="(", close_c=")") -> int:
     raise Undecided("unbalanced marker")
 
 
-def splice_body(body: str, spec: FnSpec, n_loops: int, key: str, diverge_spec="ensures false") -> str:
+def remap_anchor(needle: str, nth: int, old_body: str, new_lines: list):
+    """The anchor text of a proof hint is gone from the translated body. If the body this hint was last locked against
+    (anchors.lock.json) is known, find the line the anchor named THERE and carry it over to the current body through a
+    line diff: a line inside a replaced region of equal length maps by offset, the first line of a replaced region maps
+    to the first line of its replacement. Returns (new_needle, new_nth) naming that line of the current body, or None."""
+    import difflib
+    if not old_body:
+        return None
+    old_lines = old_body.split("\n")
+    hits = [i for i, l in enumerate(old_lines) if needle in l]
+    if len(hits) <= nth:
+        return None
+    L = hits[nth]
+    a = [l.strip() for l in old_lines]
+    b = [l.strip() for l in new_lines]
+    Ln = None
+    for tag, i1, i2, j1, j2 in difflib.SequenceMatcher(None, a, b, autojunk=False).get_opcodes():
+        if i1 <= L < i2:
+            if tag == "equal" or (tag == "replace" and i2 - i1 == j2 - j1):
+                Ln = j1 + (L - i1)
+            elif tag == "replace" and L == i1 and j2 > j1:
+                Ln = j1
+            break
+    if Ln is None or not b[Ln]:
+        return None
+    text = new_lines[Ln]
+    return text, sum(1 for l in new_lines[:Ln] if text in l)
+
+
+def splice_body(body: str, spec: FnSpec, n_loops: int, key: str, diverge_spec="ensures false", lost=None, old_body=None, rec=None) -> str:
+    if lost is None:
+        lost = LOST_HINTS
     # loops
     for k in range(n_loops):
         inv = spec.loops.get(k, "") if spec else ""
@@ -373,7 +435,7 @@ def splice_body(body: str, spec: FnSpec, n_loops: int, key: str, diverge_spec="e
     if spec:
         for k in spec.loops:
             if k >= n_loops:
-                LOST_HINTS.append(f"{key}: loop spec {k} dropped (the function now has {n_loops} loops)")
+                lost.append(f"{key}: loop spec {k} dropped (the function now has {n_loops} loops)")
     # diverging closures (T5)
     def clos(m):
         k = int(m.group(4))
@@ -388,10 +450,13 @@ def splice_body(body: str, spec: FnSpec, n_loops: int, key: str, diverge_spec="e
     if re.search(r"__vx_\w+!", body):   # markers are macros; `__vx_a<k>` are the T1 argument temporaries
         raise Undecided(f"{key}: unreplaced marker")
     # proof insertions
+    if spec and rec is not None and any(p[0].startswith(("after ", "before ")) for p in spec.proofs):
+        rec[key] = body
     if spec:
         for text in spec.ghosts:
             i = body.index("{")
             body = body[:i + 1] + "\n" + text + body[i + 1:]
+        body0_lines = body.split("\n")
         for pitem in spec.proofs:
             anchor, text = pitem[0], pitem[1]
             block = text[len(GHOST_MARK):] if text.startswith(GHOST_MARK) else ("proof {\n" + text + "\n}")
@@ -406,8 +471,13 @@ def splice_body(body: str, spec: FnSpec, n_loops: int, key: str, diverge_spec="e
                 lines = body.split("\n")
                 hits = [i for i, l in enumerate(lines) if needle in l]
                 if len(hits) <= nth:
+                    rm = remap_anchor(needle, nth, old_body, body0_lines)
+                    if rm:
+                        needle, nth = rm
+                        hits = [i for i, l in enumerate(lines) if needle in l]
+                if len(hits) <= nth:
                     # ghost hint only: without it the proof can fail but never wrongly succeed
-                    LOST_HINTS.append(f"{key}: proof hint at anchor {anchor!r} dropped (anchor text no longer present)")
+                    lost.append(f"{key}: proof hint at anchor {anchor!r} dropped (anchor text no longer present)")
                     continue
                 L = hits[nth]
                 ind = len(lines[L]) - len(lines[L].lstrip())
@@ -420,7 +490,7 @@ def splice_body(body: str, spec: FnSpec, n_loops: int, key: str, diverge_spec="e
                     if i == L and li.rstrip().endswith("{"):
                         continue
                 if end is None:
-                    LOST_HINTS.append(f"{key}: proof hint at anchor {anchor!r} dropped (statement end not found)")
+                    lost.append(f"{key}: proof hint at anchor {anchor!r} dropped (statement end not found)")
                     continue
                 lines.insert(end + 1, block)
                 body = "\n".join(lines)
@@ -433,8 +503,13 @@ def splice_body(body: str, spec: FnSpec, n_loops: int, key: str, diverge_spec="e
                 lines = body.split("\n")
                 hits = [i for i, l in enumerate(lines) if needle in l]
                 if len(hits) <= nth:
+                    rm = remap_anchor(needle, nth, old_body, body0_lines)
+                    if rm:
+                        needle, nth = rm
+                        hits = [i for i, l in enumerate(lines) if needle in l]
+                if len(hits) <= nth:
                     # ghost hint only: without it the proof can fail but never wrongly succeed
-                    LOST_HINTS.append(f"{key}: proof hint at anchor {anchor!r} dropped (anchor text no longer present)")
+                    lost.append(f"{key}: proof hint at anchor {anchor!r} dropped (anchor text no longer present)")
                     continue
                 L = hits[nth]
                 # the hit may be a continuation line of a multi-line statement (`let x = e\n    .f(..)`):
@@ -627,6 +702,10 @@ def assemble(unit: dict, scratch: str, passname="A") -> Assembled:
     text = "\n".join(parts) + "\n"
     spec_region_end = text.count("\n")
     asm = Assembled()
+    lost_hints, anchor_bodies = [], {}
+    alp = os.path.join(unit["dir"], "anchors.lock.json")
+    anchor_lock = (json.load(open(alp)) if os.path.exists(alp) else {}).get(passname, {})
+    asm.lost_hints, asm.anchor_bodies = lost_hints, anchor_bodies
     asm.borrowed = borrowed
     asm.spec_region = (spec_region_start, spec_region_end)
     asm.unit = unit
@@ -694,7 +773,8 @@ def assemble(unit: dict, scratch: str, passname="A") -> Assembled:
         for f in groups[g]:
             key = f["key"]
             sp = specs.get(key)
-            body = splice_body(rn(f["body"]), sp, f["n_loops"], key, unit.get("diverge_spec", "ensures false"))
+            body = splice_body(rn(f["body"]), sp, f["n_loops"], key, unit.get("diverge_spec", "ensures false"),
+                               lost=lost_hints, old_body=anchor_lock.get(key), rec=anchor_bodies)
             bc = (sp.opts.get("broadcast") if sp else None) or ",".join(unit.get("broadcast", []))
             if bc and bc != "none":
                 i = body.index("{")
